@@ -67,6 +67,11 @@ def slotFlags : List Char → Bool → List Bool
   | [], _ => []
   | c :: cs, ap => if c = '?' then ap :: slotFlags cs ap else slotFlags cs (c == '(')
 
+/-- a `?` directly followed by a digit: under `$n` the printed placeholder `$k` would run into the digit -/
+def qDigit : List Char → Bool
+  | [] => false
+  | c :: r => (c == '?' && (match r with | c' :: _ => c'.isDigit | [] => false)) || qDigit r
+
 /-- what a `?` slot binds when it is directly after `(` (or `WithoutParentheses`), given the value and the
     spec `s` of the value in plain `AddVar` position -/
 def expandSp (v : Val β) (s : Sp β) : Sp β :=
@@ -175,8 +180,9 @@ def spec {β : Type} (d : Dialect) : Val β → Sp β
   | .subq ns es => catSnd ((annot d es).take ns.length)
   | .rsub text vars =>
     let t := retemplate d 1 vars.length text
-    -- F26: every `$` of the rendered text must have been a placeholder the loop turned back into `?`
-    if d == .dollar && t.contains '$' then .bad
+    -- F26: every `$` of the rendered text must have been a placeholder the loop turned back into `?`, and no
+    -- re-templated placeholder may run into a following digit (`$1` hit as the head of `$10` leaves `?0`)
+    if d == .dollar && (t.contains '$' || qDigit t) then .bad
     else if containsSub t ['@'] then itemsSp (tableSp d vars) (nexprItems t vars.length false [] false) (annot d vars)
     else pickSlots false (slotFlags t false) (annot d vars)
 /-- every element with its spec -/
